@@ -171,6 +171,9 @@ pub fn gen_ring_cfg(t: &mut Tape, o: &GenOpts) -> RingCfg {
     let lock_period = frac(15 - t.below(16));
     // cold start together: first polls within Tslot/2 of each other; late joiners: after the first claim
     let first = t.below(n as u64) as usize;
+    // several late joiners often share one instant
+    let shared_late = (8 + 2 * 126 + 300 + t.below(2000) as i64) * slot_us;
+    let share = t.bool();
     for (i, a) in addrs.iter().enumerate() {
         let period = match cfg.schedule {
             Schedule::LockStep => lock_period,
@@ -184,8 +187,8 @@ pub fn gen_ring_cfg(t: &mut Tape, o: &GenOpts) -> RingCfg {
         }
         if o.late_joiners && i != first && t.chance(1, 3) {
             // several joiners may share the same instant
-            let base = (8 + 2 * 126 + if t.bool() { 500 } else { t.below(3000) as i64 }) * slot_us;
-            online = base + if t.bool() { 0 } else { t.below(slot_us as u64 * 50) as i64 };
+            let base = if share { shared_late } else { (8 + 2 * 126 + if t.bool() { 500 } else { t.below(3000) as i64 }) * slot_us };
+            online = base + if share || t.bool() { 0 } else { t.below(slot_us as u64 * 50) as i64 };
         }
         cfg.stations.push(StationCfg {
             addr: *a,
